@@ -34,6 +34,7 @@ type Sig struct {
 	Nf  string    `json:"nf"`
 	Ps  []SigItem `json:"ps"`
 	Var bool      `json:"var"`
+	Vt  string    `json:"vt"`
 	Rs  []SigItem `json:"rs"`
 }
 
@@ -234,7 +235,11 @@ func BuildSig(s Sig) interface{} {
 		ins = append(ins, itemType(it))
 	}
 	if s.Var {
-		ins = append(ins, reflect.TypeOf([]string(nil)))
+		if s.Vt == "" || s.Vt == "str" {
+			ins = append(ins, reflect.TypeOf([]string(nil)))
+		} else {
+			ins = append(ins, reflect.SliceOf(atomType(s.Vt)))
+		}
 	}
 	for _, it := range s.Rs {
 		outs = append(outs, itemType(it))
@@ -336,6 +341,36 @@ func renderR(r SigR) string {
 type SigDiv struct {
 	Kind   string `json:"kind"` // crash | verdict.provide | verdict.decorate | verdict.invoke | info | info.onreject | notrace | class | viz.misbehaved
 	Detail string `json:"detail"`
+}
+
+// What a Fill*Info struct holds before the call under test: entries of an earlier use. An
+// accepted call replaces them, a rejected one leaves them alone.
+var (
+	junkInputs  = []*dig.Input{{}, {}}
+	junkOutputs = []*dig.Output{{}}
+)
+
+func isJunkIn(i *dig.Input) bool {
+	for _, j := range junkInputs {
+		if i == j {
+			return true
+		}
+	}
+	return false
+}
+
+func isJunkOut(o *dig.Output) bool {
+	for _, j := range junkOutputs {
+		if o == j {
+			return true
+		}
+	}
+	return false
+}
+
+func untouched(in []*dig.Input, out []*dig.Output) bool {
+	return len(in) == len(junkInputs) && (len(in) == 0 || &in[0] == &junkInputs[0]) &&
+		len(out) == len(junkOutputs) && (len(out) == 0 || &out[0] == &junkOutputs[0])
 }
 
 func seedContainer(state int) (*dig.Container, api, error) {
@@ -523,6 +558,7 @@ func TestSig(l *SigLine) []SigDiv {
 			var perr error
 			var pi dig.ProvideInfo
 			pi.ID = -12345
+			pi.Inputs, pi.Outputs = junkInputs, junkOutputs // a caller may hand in a struct it used before
 			_, crash := guard(func() {
 				perr = a.Provide(val, append(sigProvideOpts(l.O, &cbNames), dig.FillProvideInfo(&pi))...)
 			})
@@ -538,7 +574,7 @@ func TestSig(l *SigLine) []SigDiv {
 						add("info", fmt.Sprintf("ProvideInfo want in=%q out=%q got in=%q out=%q", wantIn, wantOut, in, out))
 					}
 				} else {
-					if pi.ID != -12345 || pi.Inputs != nil || pi.Outputs != nil {
+					if pi.ID != -12345 || !untouched(pi.Inputs, pi.Outputs) {
 						add("info.onreject", "ProvideInfo written by a rejected Provide")
 					}
 					if digRaw(c) != before {
@@ -565,6 +601,7 @@ func TestSig(l *SigLine) []SigDiv {
 			var derr error
 			var di dig.DecorateInfo
 			di.ID = -12345
+			di.Inputs, di.Outputs = junkInputs, junkOutputs
 			_, crash := guard(func() { derr = a.Decorate(val, dig.FillDecorateInfo(&di)) })
 			if crash != "" {
 				add("crash", fmt.Sprintf("Decorate panicked (state %d): %s", state, crash))
@@ -578,7 +615,7 @@ func TestSig(l *SigLine) []SigDiv {
 						add("info", fmt.Sprintf("DecorateInfo want in=%q out=%q got in=%q out=%q", wantIn, wantOutD, in, out))
 					}
 				} else {
-					if di.ID != -12345 || di.Inputs != nil || di.Outputs != nil {
+					if di.ID != -12345 || !untouched(di.Inputs, di.Outputs) {
 						add("info.onreject", "DecorateInfo written by a rejected Decorate")
 					}
 					if digRaw(c) != before {
@@ -618,6 +655,7 @@ func TestSig(l *SigLine) []SigDiv {
 			c, a, _ := seedContainer(state)
 			var ierr error
 			var ii dig.InvokeInfo
+			ii.Inputs = junkInputs
 			_, crash := guard(func() { ierr = a.Invoke(val, dig.FillInvokeInfo(&ii)) })
 			if crash != "" {
 				add("crash", fmt.Sprintf("Invoke panicked (state %d): %s", state, crash))
